@@ -3,7 +3,6 @@ package formatter
 import (
 	"fmt"
 	"strings"
-	"unicode"
 
 	"golang.org/x/net/html"
 	"golang.org/x/net/html/atom"
@@ -297,7 +296,7 @@ func (f *Formatter) formatNode(n *html.Node, buf *strings.Builder, depth int) {
 		buf.WriteString("\n")
 
 	case html.TextNode:
-		text := strings.TrimSpace(n.Data)
+		text := helpers.TrimHTMLSpace(n.Data)
 		if text != "" {
 			buf.WriteString(indent)
 			buf.WriteString(escapeText(text))
@@ -461,7 +460,7 @@ func (f *Formatter) renderInlineChildren(n *html.Node) string {
 			}
 		}
 	}
-	return strings.TrimSpace(b.String())
+	return helpers.TrimHTMLSpace(b.String())
 }
 
 // escapeText escapes HTML-significant characters (&, <, >) in text content.
@@ -537,7 +536,7 @@ func trimRawContent(s string) string {
 // normalizeInlineText collapses whitespace in inline text while preserving
 // boundary spaces needed between inline elements and text.
 func normalizeInlineText(s string) string {
-	trimmed := strings.TrimSpace(s)
+	trimmed := helpers.TrimHTMLSpace(s)
 	if trimmed == "" {
 		// Whitespace-only text between inline elements: preserve as single space
 		if len(s) > 0 {
@@ -547,17 +546,17 @@ func normalizeInlineText(s string) string {
 	}
 
 	// Collapse internal whitespace runs to single spaces
-	fields := strings.Fields(trimmed)
+	fields := strings.FieldsFunc(trimmed, helpers.IsHTMLSpace)
 	out := strings.Join(fields, " ")
 
 	// Preserve leading space if original had one (boundary between elements)
 	runes := []rune(s)
-	if len(runes) > 0 && unicode.IsSpace(runes[0]) {
+	if len(runes) > 0 && helpers.IsHTMLSpace(runes[0]) {
 		out = " " + out
 	}
 
 	// Preserve trailing space if original had one
-	if len(runes) > 0 && unicode.IsSpace(runes[len(runes)-1]) {
+	if len(runes) > 0 && helpers.IsHTMLSpace(runes[len(runes)-1]) {
 		out = out + " "
 	}
 
@@ -569,7 +568,7 @@ func (f *Formatter) isIgnorableWhitespace(n *html.Node) bool {
 	if n.Type != html.TextNode {
 		return false
 	}
-	return strings.TrimSpace(n.Data) == ""
+	return helpers.IsHTMLBlank(n.Data)
 }
 
 // renderOpenTag renders an opening tag with attributes.
